@@ -136,6 +136,7 @@ type ext4Case struct {
 	Fsck    int          `json:"fsck,omitempty"` // C05: run e2fsck every k steps (1 = every step)
 	Handles bool         `json:"handles,omitempty"`
 	Big     bool         `json:"big,omitempty"` // sizes up to several MiB
+	Chunk   int          `json:"chunk,omitempty"` // appendspan: blocks per append (default 64)
 	Avoid   []string     `json:"avoid,omitempty"`
 }
 
@@ -486,6 +487,68 @@ func runExt4Case(prop string, c core.Case, env *core.Env) core.Result {
 			}
 		}
 		res.Mark("directories grown block by block between other allocations")
+		if !drv.Diverged {
+			drv.Light = false
+			if prop == "C04" {
+				drv.Compare(fs, "live", nil)
+			}
+			reopenCmp()
+		}
+	case "appendspan":
+		// a file grown by many appends across several block groups (contiguous appends share an extent, so extents
+		// come to span group boundaries wherever a group has no metadata at its start), then released in
+		// again, twice
+		drv.Light = true
+		chunk := 64 * bs
+		if ec.Chunk > 0 {
+			// small appends fill the tail of a block group exactly, so that the next append continues the
+			// same extent in the following group
+			chunk = ec.Chunk * bs
+		}
+		n := ec.Steps
+		if n == 0 {
+			n = 330
+		}
+		explicit := func(when string, op fsdrive.Op) bool {
+			if prop != "C05" {
+				return true
+			}
+			return fsck(when, op, nil)
+		}
+		for round, how := range []string{"remove", "remove"} { // (truncation is not among the calls of the statement: ext4 ignores O_TRUNC)
+			name := fmt.Sprintf("span%d.bin", round)
+			if !step(fsdrive.Op{Kind: "write", Path: name, Len: bs, DSeed: uint64(round + 1)}) {
+				return res
+			}
+			for i := 0; i < n; i++ {
+				if !step(fsdrive.Op{Kind: "append", Path: name, Len: chunk, DSeed: uint64(100*round + i + 2)}) {
+					return res
+				}
+				if drv.History[len(drv.History)-1].Err != "" {
+					break
+				}
+				if i%50 == 25 && ec.Chunk == 0 {
+					// something small in between, so that not everything is one run
+					if !step(fsdrive.Op{Kind: "write", Path: fmt.Sprintf("small%d_%d.bin", round, i), Len: 3 * bs, DSeed: uint64(7000 + i)}) {
+						return res
+					}
+				}
+			}
+			if !explicit("after growing "+name+" across block groups", fsdrive.Op{Kind: "append", Path: name}) {
+				return res
+			}
+			op := fsdrive.Op{Kind: "remove", Path: name}
+			if how == "trunc" {
+				op = fsdrive.Op{Kind: "trunc", Path: name, Len: 0}
+			}
+			if !step(op) {
+				return res
+			}
+			if !explicit("after releasing "+name+" ("+how+")", op) {
+				return res
+			}
+		}
+		res.Mark("file grown by appends across block groups and released")
 		if !drv.Diverged {
 			drv.Light = false
 			if prop == "C04" {
